@@ -77,6 +77,9 @@ func parseCfg(tok string) (ds.RollConfig, bool) {
 				c.DiceMinMode = true
 			case 'M':
 				c.DiceMaxMode = true
+			case 'T':
+				// a host that listens to st edits (the callback keeps nothing)
+				c.CallbackSt = func(_type string, name string, val *ds.VMValue, extra *ds.VMValue, op string, detail string) {}
 			default:
 				return c, false
 			}
